@@ -467,9 +467,44 @@ fn run(ctx: &mut Ctx) {
             });
         }
     }
+    // temporaries across the build / link boundary: functions that need match-compiler temporaries (constructor, tuple
+    // and struct patterns) AND hoisted literal operands (literal-only arithmetic that wraps), compiled whole and through
+    // build + link: both texts must be valid Go and print the values the source means
+    if ctx.mine(43_000) {
+        let src = "enum Sh { Ci(int32), Sq(int32, int32) }\nstruct Pt { x: int32, y: int32 }\nfn score(s: Sh) -> int32 { match s { Sh::Ci(r) => r + (2147483647 + 1), Sh::Sq(a, b) => a * b + (2147483647 + 2) } }\nfn tup(p: (int32, (int32, int32))) -> int32 { match p { (a, (b, c)) => a + b + c + (2147483646 + 5) } }\nfn st(p: Pt) -> int32 { match p { Pt { x: a, y: b } => a + b + (2147483647 + 3) } }\nfn small(p: (uint8, uint8)) -> uint8 { let (a, b) = p; a + b + 255u8 * 255u8 }\nfn main() -> unit {\n    let _ = string_println(int32_to_string(score(Sh::Ci(3))));\n    let _ = string_println(int32_to_string(score(Sh::Sq(2, 3))));\n    let _ = string_println(int32_to_string(tup((1, (2, 3)))));\n    let _ = string_println(int32_to_string(st(Pt { x: 1, y: 2 })));\n    let _ = string_println(uint8_to_string(small((1u8, 2u8))));\n    ()\n}\n";
+        let expected = "-2147483645\n-2147483641\n-2147483639\n-2147483643\n4\n";
+        ctx.case("temporaries-across-link/whole", |c| {
+            if let Some((out, term, stderr)) = crate::exec::run_source(c, "C19", "temporaries-across-link/whole", src, 1_000_000) {
+                if out == expected && matches!(term, crate::goexec::Term::Ok) {
+                    c.count("temporaries_across_link_ok", 1);
+                } else {
+                    c.violation("C19:temporaries-program-prints-other-values:whole".to_string(), format!("prints {:?} ({:?} {})", out, term, util::truncate(&stderr, 80)), json!({"source": src}));
+                }
+            }
+        });
+        ctx.case("temporaries-across-link/linked", |c| match crate::runner::guard(|| crate::capi::link_single(src)) {
+            Ok(Ok(lgo)) => {
+                let lp = crate::goexec::parse(&lgo);
+                match crate::goexec::vet(&lp) {
+                    crate::goexec::Vet::Reject(errs) => report_vet_errors(c, &errs, &lgo, &[], "temporaries-across-link/linked", src, json!({"path": "build + link"})),
+                    crate::goexec::Vet::Accept => {
+                        let r = crate::goexec::run(&lp, 1_000_000, gomini::Sched::Deterministic);
+                        if r.stdout == expected && matches!(r.term, crate::goexec::Term::Ok) {
+                            c.count("temporaries_across_link_ok", 1);
+                        } else {
+                            c.violation("C19:temporaries-program-prints-other-values:linked".to_string(), format!("the linked program prints {:?} ({:?})", r.stdout, r.term), json!({"source": src}));
+                        }
+                    }
+                    crate::goexec::Vet::Unsupported(u) => c.inconclusive(format!("gomini vet unsupported: {}", u)),
+                }
+            }
+            Ok(Err(e)) => c.violation("C19:temporaries-program-rejected-by-build-or-link".to_string(), format!("build + link rejects a program the whole-program path accepts: {}", util::truncate(&e, 160)), json!({"source": src})),
+            Err(p) => c.violation(format!("C19:temporaries-program-crashes-build-or-link:{}", crate::diff::msg_class(&p.site)), format!("build + link crashes at {}", p.site), json!({"source": src})),
+        });
+    }
     // A. renamings
     let opts = DiffOpts { prop: "C19", vet_is_violation: false, budget: 400_000, print: PrintOpts::default() };
-    let n = tier.pick(240u64, 6_400u64) / ctx.nshards as u64 + 1;
+    let n = tier.pickn(240u64, 6_400u64) / ctx.nshards as u64 + 1;
     for j in 0..n {
         let mut rng = Rng::keyed(seed, "c19-ren", ctx.shard as u64, j);
         let mut f = Features::base();
@@ -495,6 +530,34 @@ fn run(ctx: &mut Ctx) {
                     let user: Vec<String> = ren.types.values().chain(ren.variants.values()).chain(ren.fields.values()).chain(ren.methods.values()).chain(ren.fns.values()).chain(ren.locals.values()).cloned().collect();
                     report_vet_errors(c, &errs, &go, &user, &label, &rsrc, json!({"renaming": format!("{:?}", ren)}));
                     return;
+                }
+            }
+            // the same program through build + link (the linker restarts the name counters): the linked text must be
+            // valid Go as well and print the same (added after a seeded change that gave two kinds of temporaries one
+            // prefix, which collides only across the build / link boundary)
+            if j % 2 == 0 {
+                match crate::runner::guard(|| crate::capi::link_single(&rsrc)) {
+                    Ok(Ok(lgo)) => {
+                        c.count("linked_programs_vetted", 1);
+                        let lp = crate::goexec::parse(&lgo);
+                        match crate::goexec::vet(&lp) {
+                            crate::goexec::Vet::Reject(errs) => {
+                                let user: Vec<String> = ren.types.values().chain(ren.variants.values()).chain(ren.fields.values()).chain(ren.methods.values()).chain(ren.fns.values()).chain(ren.locals.values()).cloned().collect();
+                                report_vet_errors(c, &errs, &lgo, &user, &label, &rsrc, json!({"path": "build + link", "renaming": format!("{:?}", ren)}));
+                                return;
+                            }
+                            crate::goexec::Vet::Accept => {
+                                let r = crate::goexec::run(&lp, 400_000, gomini::Sched::Deterministic);
+                                if matches!(r.term, crate::goexec::Term::Ok) && e2.stop.is_none() && r.stdout != e2.stdout {
+                                    c.violation("C19:linked-program-prints-other-output".to_string(), "the program linked from its core prints something else than it means".to_string(), json!({"label": label, "source": rsrc, "linked_stdout": util::truncate(&r.stdout, 2000), "expected": util::truncate(&e2.stdout, 2000)}));
+                                    return;
+                                }
+                            }
+                            _ => {}
+                        }
+                    }
+                    Ok(Err(_)) => c.count("linked_programs_rejected", 1),
+                    Err(_) => c.count("linked_programs_crashed", 1),
                 }
             }
             match diff::run_diff(c, &renamed, &label, &opts) {
